@@ -51,6 +51,7 @@ def gen_case(rng, tier):
     prof["state_loops"] = rng.choice([0, 0, 0.5])  # hand-threaded loops that carry the state, some launching the entry state first
     prof["head_launch"] = rng.choice([0, 0.5])
     prof["prethread"] = rng.choice([0, 0, 0.5])  # hand-threaded input: setups that continue the previous setup of their block
+    G.classic(rng, prof)
     case = {"cfg": cfg, "stage": rng.choice([0, 1, 2, 2, 3, 3]), "prof": prof, "gseed": rng.randrange(1 << 30)}
     case["decl_shift"] = rng.choice([None, None, None, 16, 64, -32])
     if cfg["kind"] == "gemmx":
